@@ -372,3 +372,12 @@ mod tests {
         }
     );
 }
+
+/// Verification hooks (feature `pasfmt_verif`): forwarding wrapper.
+#[cfg(feature = "pasfmt_verif")]
+pub mod verif_hooks_toggle {
+    /// `Some(true)` = on, `Some(false)` = off
+    pub fn parse_toggle(content: &str) -> Option<bool> {
+        super::parse_toggle(content).map(|t| matches!(t, super::FormattingToggle::On))
+    }
+}
